@@ -20,7 +20,21 @@ fn pool() -> Vec<(&'static str, Value)> {
             _ => Value::scalar(i as f64 + 0.5),
         })
         .collect();
+    // the same with strings that spell numbers, bools and a date in between
+    let mixed_num: Vec<Value> = (0..40)
+        .map(|i| match i % 5 {
+            0 => Value::scalar(i as i64),
+            1 => Value::scalar(format!("{}", 40 - i)),
+            2 => Value::scalar(i as f64 + 0.5),
+            3 => Value::scalar(i % 2 == 0),
+            _ => Value::scalar(format!("{}.5", i)),
+        })
+        .collect();
     vec![
+        ("arr40n", Value::Array(mixed_num)),
+        ("hugenum", Value::scalar("1455616800000000")),
+        ("y10k", Value::scalar("253402300800")),
+        ("minstr", Value::scalar(i64::MIN.to_string())),
         ("nil", Value::Nil),
         ("true", Value::scalar(true)),
         ("zero", Value::scalar(0i64)),
